@@ -274,6 +274,15 @@ pub fn one_case(id: &str, r: &mut Rng, max_ops: u64, hostile: bool) -> String {
 }
 
 pub fn generate(seed: u64, tier: &str, out: &mut dyn std::io::Write) {
+    // histories on the real DirSection (reserved directory array: slot i at base + 12·i, filling a slot changes only that
+    // slot — also when some of the entries handed over are the unused entry)
+    {
+        let nh = if tier == "thorough" { 20000 } else { 3000 };
+        for i in 0..nh {
+            let mut r = Rng::for_case(seed, 1609, i);
+            writeln!(out, "{} kind=dirhist", crate::c09::one_case("C16", &format!("dh{}-{}", seed, i), &mut r, 24, false)).unwrap();
+        }
+    }
     let (n_valid, n_hostile, max_ops) = if tier == "thorough" { (60000, 15000, 40) } else { (6000, 1500, 24) };
     writeln!(out, "{}", sizes_line()).unwrap();
     for i in 0..n_valid {
@@ -310,6 +319,9 @@ fn dir_position_case(id: &str, r: &mut Rng) -> String {
 }
 
 pub fn one(id: &str, seed: u64, index: u64) -> Option<String> {
+    if id.starts_with("dh") {
+        return Some(format!("{} kind=dirhist", crate::c09::one_case("C16", id, &mut Rng::for_case(seed, 1609, index), 24, false)));
+    }
     let hostile = id.starts_with("corpus-h") || id.starts_with('h');
     Some(one_case(id, &mut Rng::for_case(seed, if hostile { 1016 } else { 16 }, index), 24, hostile))
 }
